@@ -232,7 +232,17 @@ def run(tier, seed):
       return a
     return r.choice(['v', ''])
   T = pc.TrialConverter
+  import os as _os, time as _time
+
+  def set_tz(name_):
+    # trial times are aware datetimes in the zone of the process; the wire carries UTC seconds: every zone must round-trip
+    _os.environ['TZ'] = name_
+    _time.tzset()
+  ZONES = ['UTC0', 'UTC0', 'JST-9', 'PST8PDT', 'NST3:30']
   for i in range(N // 2):
+    zone_ = ZONES[i % len(ZONES)]
+    set_tz(zone_)
+    rep.count('process_time_zone_' + zone_)
     params = {}
     for nm in r.sample(['x', 'b', 's', 'i', 'é'], r.randrange(0, 4)):
       params[nm] = r.choice([0.0, 1.5, -2.0, 0, 3, '', 'cat', 'True'])
@@ -312,7 +322,9 @@ def run(tier, seed):
 
   tcases, tobjs = [], []
   base_ts = 1700000000
+  set_tz('UTC0')
   for i in range(N // 2):
+    set_tz(ZONES[(i // 3) % len(ZONES)])
     params = {}
     for nm in r.sample(['x', 'b', 's', 'i', 'é'], r.randrange(0, 4)):
       params[nm] = r.choice([0.0, 1.5, -2.0, 0, 3, '', 'cat', 'True', True, False])
@@ -348,8 +360,16 @@ def run(tier, seed):
         gstr(pr.infeasible_reason))
     tcases.append('(%s, %s)' % (term, got))
     tobjs.append(repr(t)[:300])
+    back_ = T.from_proto(pr)
+    for f_ in ('creation_time', 'completion_time'):
+      a_, b_ = getattr(t, f_), getattr(back_, f_)
+      if (a_ is None) != (b_ is None) or (a_ is not None and abs(a_.timestamp() - b_.timestamp()) > 1e-6):
+        viol('Trial.%s is not preserved to the microsecond by to_proto / from_proto (process time zone %s)' % (f_, _os.environ.get('TZ')),
+             {'sent': repr(a_), 'received': repr(b_), 'time_zone': _os.environ.get('TZ')})
+        break
     rep.case({'trial_model_case': repr(t)[:200]}, st not in ('active',))
     rep.count('trial_model_' + st)
+  set_tz('UTC0')
   bad = C.run_cases('C09', 'trial', 'From VZ Require Import Base.Prelude Model.Wire Gen.EnumMaps Model.WireConv Model.WireTrial.\n', tcases, 'trial_case_ok')
   rep.disagreements += len(bad)
   for i in bad[:3]:
@@ -401,6 +421,7 @@ def run(tier, seed):
     if canon(back) != canon(d):
       viol('MetadataDelta differs after to_protos/from_protos', {'delta': repr(d), 'back': repr(back)})
   # study configs / problem statements / requests
+  decoded_ps = []
   for i in range(N // 6):
     sc = svz.StudyConfig()
     used = set()
@@ -417,9 +438,20 @@ def run(tier, seed):
       kw = {}
       if r.random() < 0.3:
         kw = {'safety_threshold': r.choice([0.0, 1.5]), 'desired_min_safe_trials_fraction': r.choice([None, 0.5])}
+      ranged = r.random() < 0.25
+      if ranged:
+        # a declared value range / a standard-deviation threshold of a safety metric (the wire form has no field for them)
+        kw = dict(kw, min_value=r.choice([0.0, -1.0]), max_value=r.choice([1.0, 10.0]))
+        if 'safety_threshold' in kw and r.random() < 0.5:
+          kw['safety_std_threshold'] = 0.25
       sc.metric_information.append(vz.MetricInformation(name=nm, goal=r.choice(list(vz.ObjectiveMetricGoal)), **kw))
     sc.algorithm = r.choice(['RANDOM_SEARCH', 'NSGA2', ''])
     sc.observation_noise = r.choice(list(svz.ObservationNoise))
+    with_stop = r.random() < 0.4
+    if with_stop:
+      from vizier._src.pyvizier.oss import automated_stopping as _as
+      sc.automated_stopping_config = _as.AutomatedStoppingConfig.default_stopping_spec()
+    rep.count('study_config_with_stopping_config' if with_stop else 'study_config_without_stopping_config')
     if r.random() < 0.5:
       sc.metadata.ns('u')['k'] = md_value()
     p1 = sc.to_proto()
@@ -431,10 +463,39 @@ def run(tier, seed):
       viol('second conversion of a StudyConfig is not identical', {'metrics': mnames}, None if srt else 'C09-study-config-sorts-metrics')
     if back.search_space != sc.search_space or back.algorithm != sc.algorithm or back.observation_noise != sc.observation_noise:
       viol('StudyConfig differs after to_proto/from_proto', {'metrics': mnames})
+    stop_of = lambda c_: None if c_.automated_stopping_config is None else c_.automated_stopping_config.to_proto().SerializeToString()
+    if stop_of(back) != stop_of(sc):
+      viol('stopping config of a StudyConfig differs after to_proto/from_proto', {'sent': repr(sc.automated_stopping_config), 'received': repr(back.automated_stopping_config)})
+    # the config that came from the wire is edited (stopping config cleared / set, algorithm changed) and sent again
+    edit_ = r.choice(['clear_stopping', 'set_stopping', 'algorithm'])
+    if edit_ == 'clear_stopping':
+      back.automated_stopping_config = None
+    elif edit_ == 'set_stopping':
+      from vizier._src.pyvizier.oss import automated_stopping as _as
+      back.automated_stopping_config = _as.AutomatedStoppingConfig.default_stopping_spec()
+    else:
+      back.algorithm = 'QUASI_RANDOM_SEARCH'
+    again = svz.StudyConfig.from_proto(back.to_proto())
+    rep.count('edited_study_config_' + edit_)
+    if stop_of(again) != stop_of(back) or again.algorithm != back.algorithm:
+      viol('a StudyConfig read from the wire, edited (%s) and converted again does not carry its current fields' % edit_,
+           {'edit': edit_, 'had_stopping_config_before': with_stop, 'now': repr(back.automated_stopping_config), 'after_round_trip': repr(again.automated_stopping_config),
+            'algorithm_now': back.algorithm, 'algorithm_after': again.algorithm})
+    back = svz.StudyConfig.from_proto(p1)
     mdc = lambda c: sorted((str(ns), k, v if isinstance(v, str) else ('proto', v.type_url, bytes(v.value)))
                            for ns in c.metadata.namespaces() for k, v in c.metadata.abs_ns(ns).items())
     if mdc(back) != mdc(sc):
       viol('StudyConfig metadata differs after to_proto/from_proto', {'metadata': repr(mdc(sc))[:300], 'back': repr(mdc(back))[:300]})
+    mi_key = lambda m_: (m_.name, m_.goal.name, m_.safety_threshold, m_.desired_min_safe_trials_fraction)
+    mi_rng = lambda m_: (m_.min_value, m_.max_value, m_.safety_std_threshold)
+    sent_, got_ = {m_.name: m_ for m_ in sc.metric_information}, {m_.name: m_ for m_ in back.metric_information}
+    if set(sent_) == set(got_):
+      for nm_ in sent_:
+        if mi_key(sent_[nm_]) != mi_key(got_[nm_]):
+          viol('goal / safety settings of a metric differ after to_proto/from_proto', {'metric': nm_, 'sent': repr(mi_key(sent_[nm_])), 'received': repr(mi_key(got_[nm_]))})
+        elif mi_rng(sent_[nm_]) != mi_rng(got_[nm_]):
+          viol('declared value range / standard-deviation threshold of a metric differ after to_proto/from_proto',
+               {'metric': nm_, 'sent': repr(mi_rng(sent_[nm_])), 'received': repr(mi_rng(got_[nm_]))}, 'C09-metric-range-not-transmitted')
     if [m.name for m in back.metric_information] != mnames:
       viol('StudyConfig metrics differ after to_proto/from_proto', {'metrics': mnames}, None if srt else 'C09-study-config-sorts-metrics')
     # Pythia requests / decisions
@@ -443,14 +504,41 @@ def run(tier, seed):
     sb = svz.SuggestConverter.from_request_proto(svz.SuggestConverter.to_request_proto(sreq))
     if (sb.count, sb.study_guid, sb.max_trial_id) != (sreq.count, sreq.study_guid, sreq.max_trial_id):
       viol('SuggestRequest differs after the wire', {'count': sreq.count})
+    # the problem statement carried by the request (search space, metrics, metadata), and later: every decoded statement
+    # still is what it was when it was decoded (decoding another message must not change it)
+    want_ps = back.to_problem()
+    ps_canon = lambda ps_: (repr(ps_.search_space), [mi_key(m_) for m_ in ps_.metric_information], mdc(ps_))
+    for what_, got_ps in (('SuggestRequest', sb.study_config),):
+      if ps_canon(got_ps) != ps_canon(want_ps):
+        viol('problem statement of a %s differs after the wire' % what_,
+             {'sent': repr(ps_canon(want_ps))[:500], 'received': repr(ps_canon(got_ps))[:500], 'messages_decoded_before': len(decoded_ps)})
+        break
+      decoded_ps.append((what_, got_ps, ps_canon(got_ps)))
     dec = pythia.SuggestDecision([vz.TrialSuggestion({'x': 0.0, 's': ''})], vz.MetadataDelta())
     db = svz.SuggestConverter.from_decision_proto(svz.SuggestConverter.to_decision_proto(dec))
     if [dict(s.parameters.as_dict()) for s in db.suggestions] != [dict(s.parameters.as_dict()) for s in dec.suggestions]:
       viol('SuggestDecision differs after the wire', {})
-    ereq = pythia.EarlyStopRequest(study_descriptor=descr, trial_ids=[1, 3])
+    ids_ = r.choice([None, [1, 3], [r.randrange(1, 60)], list(range(1, r.randrange(2, 9)))])
+    ereq = pythia.EarlyStopRequest(study_descriptor=descr, trial_ids=ids_)
     eb = svz.EarlyStopConverter.from_request_proto(svz.EarlyStopConverter.to_request_proto(ereq))
-    if set(eb.trial_ids) != {1, 3}:
-      viol('EarlyStopRequest differs after the wire', {'trial_ids': list(eb.trial_ids)})
+    rep.count('early_stop_request_all_trials' if ids_ is None else 'early_stop_request_with_ids')
+    if eb.trial_ids != ereq.trial_ids:
+      viol('EarlyStopRequest differs after the wire', {'trial_ids_sent': None if ids_ is None else sorted(ids_),
+                                                       'trial_ids_received': None if eb.trial_ids is None else sorted(eb.trial_ids)})
+    if (eb.study_guid, eb.max_trial_id) != (ereq.study_guid, ereq.max_trial_id):
+      viol('EarlyStopRequest differs after the wire (study guid / max trial id)', {'sent': (ereq.study_guid, ereq.max_trial_id), 'received': (eb.study_guid, eb.max_trial_id)})
+    if ps_canon(eb.study_config) != ps_canon(want_ps):
+      viol('problem statement of an EarlyStopRequest differs after the wire',
+           {'sent': repr(ps_canon(want_ps))[:500], 'received': repr(ps_canon(eb.study_config))[:500], 'messages_decoded_before': len(decoded_ps)})
+    else:
+      decoded_ps.append(('EarlyStopRequest', eb.study_config, ps_canon(eb.study_config)))
+    psb = pc.ProblemStatementConverter.from_proto(pc.ProblemStatementConverter.to_proto(want_ps))
+    if ps_canon(psb) != ps_canon(want_ps):
+      viol('ProblemStatement differs after to_proto/from_proto',
+           {'sent': repr(ps_canon(want_ps))[:500], 'received': repr(ps_canon(psb))[:500], 'messages_decoded_before': len(decoded_ps)})
+    else:
+      decoded_ps.append(('ProblemStatement', psb, ps_canon(psb)))
+    rep.count('problem_statement_with_metadata' if mdc(want_ps) else 'problem_statement_without_metadata')
     # batches of early-stopping decisions: ids, reasons (unicode, separators), verdicts, with and without a predicted final
     # measurement in every order, algorithm metadata for the study and for trials
     def gen_pred():
@@ -479,6 +567,11 @@ def run(tier, seed):
                        sorted((t_, str(ns_), k_, v_) for t_, md_ in dl_.on_trials.items() for ns_ in md_.namespaces() for k_, v_ in md_.abs_ns(ns_).items()))
     if mdd(edb.metadata) != mdd(eds.metadata):
       viol('metadata of EarlyStopDecisions differs after the wire', {'sent': repr(mdd(eds.metadata))[:300], 'received': repr(mdd(edb.metadata))[:300]})
+  for what_, obj_, was_ in decoded_ps:
+    if ps_canon(obj_) != was_:
+      viol('a decoded %s changed when later messages were decoded (decoded objects share state)' % what_,
+           {'when_decoded': repr(was_)[:400], 'now': repr(ps_canon(obj_))[:400]})
+      break
   C.settle_broken(rep, broke, concrete)
   return rep.finish()
 
